@@ -53,6 +53,7 @@ def run(chk, repo):
                repo.func(T + ".read_eeprom"), "; ".join(bad[:3]) or
                "4- and 8-byte interfaces, busy 0..3 polls, 11 images")
         identity(chk, repo)
+    sii_master(chk, repo)
     busy(chk, repo)
     strides(chk, repo)
     modes(chk, repo)
@@ -245,6 +246,62 @@ def sii(chk, repo):
                                f"{tag}: category contents differ from the "
                                f"image")
     return rows, bad
+
+
+def sii_master(chk, repo):
+    """the position-addressed sibling of the reader, EtherCat.eeprom_read
+    (identity and serial-number scans), against the same interface model:
+    the four bytes stored at the word address are returned, whatever the
+    interface width and however long it is busy"""
+    import struct
+    ec = repo.cls("ebpfcat.ethercat.EtherCat")
+    f = ec.methods.get("eeprom_read")
+    if f is None:
+        return
+    sym = ec.qualname + ".eeprom_read"
+    chk.analysed(sym)
+    bad = []
+    rows = 0
+    image, _ = _images()[2]
+    for mode8 in (True, False):
+        for busy, busy0 in ((0, 0), (1, 0), (3, 2), (2, 1)):
+            for start in (8, 10, 12, 14, 0x40):
+                rows += 1
+                dev = _SII(image, mode8, busy, busy0)
+
+                def rt(cmd, pos, offset, *args, _d=dev, **kw):
+                    nm = getattr(cmd, "name", cmd)
+                    if pos != -3:
+                        _d.errors.append(f"terminal {pos} addressed")
+                    if nm == "APRD":
+                        return _d.read(offset, *args)
+                    if nm == "APWR":
+                        return _d.write(offset, *args)
+                    _d.errors.append(f"command {nm}")
+                    return ()
+                me = Obj(ec, {"roundtrip": ("hook", rt)})
+                tag = (f"{'8' if mode8 else '4'}-byte interface, busy "
+                       f"{busy0}/{busy} polls, word {start:#x}")
+                try:
+                    got = Evaluator(repo, f._module, ec).call_function(
+                        f, [me, -3, start], cls=ec)
+                except Budget as e:
+                    bad.append(f"{tag}: does not end ({e})")
+                    break
+                except Unknown as e:
+                    raise AnalysisError(f"{sym}: cannot be evaluated: {e}")
+                except Raised as e:
+                    bad.append(f"{tag}: raises {e.what[:40]}")
+                    continue
+                want = struct.unpack_from("<I", image, 2 * start)[0]
+                if dev.errors:
+                    bad.append(f"{tag}: {dev.errors[0]}")
+                elif got != want:
+                    bad.append(f"{tag}: returns {got!r}, stored {want:#x}")
+    chk.ob("R17.2", sym, f"the four bytes stored at the word address are "
+           f"returned ({rows} runs against the interface model, by abstract "
+           f"execution)", not bad, f, "; ".join(bad[:2]) or
+           "the data comes from the read that reported not-busy")
 
 
 def read_one(chk, repo):
@@ -672,7 +729,67 @@ def pdos_whole(chk, repo):
     return True, None
 
 
+def pdo_sizes(chk, repo):
+    """EBPFTerminal.apply_eeprom by abstract execution (bus accesses are
+    stand-ins, parse_pdos is the real one on EEPROM categories): the
+    process-data sizes programmed into the sync managers are the bit totals
+    of the PDO categories rounded up to bytes - gaps included, also a gap
+    at the very end"""
+    import struct
+    et = repo.cls("ebpfcat.ebpfcat.EBPFTerminal")
+    f = et.methods.get("apply_eeprom")
+    if f is None:
+        return
+    sym = et.qualname + ".apply_eeprom"
+    chk.analysed(sym)
+    cases = [
+        ([(0x7000, 1, 8), (0, 0, 8)],
+         [(0x6000, 1, 1), (0, 0, 15), (0x6010, 1, 16), (0, 0, 16)]),
+        ([(0x7000, 1, 16)], [(0x6000, 1, 1), (0x6000, 2, 1)]),
+        ([], [(0x6000, 1, 32), (0, 0, 4)]),
+        ([(0x7010, 1, 1), (0, 0, 7), (0, 0, 8)], []),
+    ]
+    bad = []
+    for outs, ins in cases:
+        ee = {}
+        for cat, ents in ((51, outs), (50, ins)):
+            if not ents:
+                continue
+            blob = struct.pack("<HBbBBH", 0x1600, len(ents), 2, 0, 0, 0)
+            for i_, s_, b_ in ents:
+                blob += struct.pack("<HBBBB2x", i_, s_, 0, 0, b_)
+            ee[cat] = blob
+        noop = ("hook", lambda *a, **k: None)
+        me = Obj(et, {"eeprom": ee, "read_eeprom": noop, "set_state": noop,
+                      "write_pdos": noop, "write_pdo_sm": noop,
+                      "parse_sdos": noop, "write": noop,
+                      "vendorId": 2, "productCode": 5,
+                      "mbx_out_off": None, "mbx_in_off": None,
+                      "mbx_out_sz": None, "mbx_in_sz": None,
+                      "pdo_out_off": 0x1000, "pdo_in_off": 0x1100,
+                      "pdo_out_sz": None, "pdo_in_sz": None})
+        try:
+            Evaluator(repo, f._module, et).call_function(f, [me], cls=et)
+        except Unknown as e:
+            raise AnalysisError(f"{sym}: cannot be evaluated: {e}")
+        except Raised as e:
+            bad.append(f"outputs {outs}, inputs {ins}: raises "
+                       f"{e.what[:50]}")
+            continue
+        wo = (sum(b for _, _, b in outs) + 7) // 8
+        wi = (sum(b for _, _, b in ins) + 7) // 8
+        got = (me.fields.get("pdo_out_sz"), me.fields.get("pdo_in_sz"))
+        if got != (wo, wi):
+            bad.append(f"outputs {outs}, inputs {ins}: sizes {got}, the "
+                       f"categories describe {(wo, wi)} bytes")
+    chk.ob("R17.4", sym, "process-data sizes = the categories' bit totals "
+           "rounded up to bytes, gaps (also trailing ones) included "
+           f"({len(cases)} terminals by abstract execution)", not bad, f,
+           "; ".join(bad[:2]) or "pdo_out_sz / pdo_in_sz as stored")
+
+
 def pdos(chk, repo):
+    pdo_sizes(chk, repo)
     ok_, why_ = pdos_whole(chk, repo)
     if ok_:
         try:
